@@ -1,6 +1,7 @@
 package vc
 
 import (
+	"go/constant"
 	"fmt"
 	"go/ast"
 	"go/parser"
@@ -398,6 +399,39 @@ func (p *Prog) GlobalInitFunc(g *ssa.Global) *ssa.Function {
 		}
 	}
 	return found
+}
+
+// GlobalInitConst returns the integer constant an immutable package-level variable is initialised with.
+func (p *Prog) GlobalInitConst(g *ssa.Global) (string, bool) {
+	if g.Pkg == nil || !p.ImmutableGlobal(g) {
+		return "", false
+	}
+	found, n := "", 0
+	for _, m := range g.Pkg.Members {
+		fn, ok := m.(*ssa.Function)
+		if !ok || fn.Name() != "init" {
+			continue
+		}
+		for _, b := range fn.Blocks {
+			for _, in := range b.Instrs {
+				if st, ok := in.(*ssa.Store); ok && st.Addr == ssa.Value(g) {
+					n++
+					if cv, ok := st.Val.(*ssa.Const); ok && cv.Value != nil && cv.Value.Kind() == constant.Int {
+						found = cv.Value.ExactString()
+					} else {
+						return "", false
+					}
+				}
+			}
+		}
+	}
+	if n != 1 || found == "" {
+		return "", false
+	}
+	if strings.HasPrefix(found, "-") {
+		found = "(- " + found[1:] + ")"
+	}
+	return found, true
 }
 
 // ImmutableGlobal reports whether a package-level variable is never stored to
